@@ -126,6 +126,13 @@ static SLOTS: [Slot; NSLOTS] = {
     [S; NSLOTS]
 };
 static PROP_ID: Mutex<String> = Mutex::new(String::new());
+/// "<root>/replays/" as bytes for the async-signal-safe fault path (set once in set_property)
+static REPLAY_PREFIX: std::sync::OnceLock<Vec<u8>> = std::sync::OnceLock::new();
+
+/// root of the verification tree: /verif unless VERIF_ROOT is set (isolated self-test runs)
+pub fn root() -> String {
+    std::env::var("VERIF_ROOT").unwrap_or_else(|_| "/verif".to_string())
+}
 static PROP_ID_BYTES: [AtomicU64; 2] = [AtomicU64::new(0), AtomicU64::new(0)];
 static FAULT_SEQ: AtomicUsize = AtomicUsize::new(0);
 
@@ -165,6 +172,7 @@ pub fn set_case(text: &[u8]) {
 
 pub fn set_property(id: &str) {
     *PROP_ID.lock().unwrap() = id.to_string();
+    let _ = REPLAY_PREFIX.set(format!("{}/replays/", root()).into_bytes());
     let mut b = [0u8; 16];
     b[..id.len().min(16)].copy_from_slice(&id.as_bytes()[..id.len().min(16)]);
     PROP_ID_BYTES[0].store(u64::from_le_bytes(b[..8].try_into().unwrap()), Ordering::SeqCst);
@@ -190,8 +198,8 @@ pub fn fatal_current_case(kind: &str, what: &str) -> ! {
     let idlen = idb.iter().position(|&b| b == 0).unwrap_or(16);
     let id = &idb[..idlen];
     // path: /verif/replays/<id>-fault.json
-    let mut path = [0u8; 64];
-    let prefix = b"/verif/replays/";
+    let mut path = [0u8; 512];
+    let prefix: &[u8] = REPLAY_PREFIX.get().map(|v| v.as_slice()).unwrap_or(b"/verif/replays/");
     let mut n = 0;
     path[n..n + prefix.len()].copy_from_slice(prefix);
     n += prefix.len();
@@ -424,12 +432,12 @@ pub struct Ctx {
 
 impl Ctx {
     pub fn new(id: &str, tier: Tier, seed: u64, level: &str) -> Self {
-        let known: Vec<KnownFinding> = match std::fs::read_to_string("/verif/known_findings.json") {
+        let known: Vec<KnownFinding> = match std::fs::read_to_string(format!("{}/known_findings.json", root())) {
             Ok(s) => serde_json::from_str(&s).expect("known_findings.json must parse"),
             Err(_) => vec![],
         };
         set_property(id);
-        if let Ok(rd) = std::fs::read_dir("/verif/replays") {
+        if let Ok(rd) = std::fs::read_dir(format!("{}/replays", root())) {
             for e in rd.flatten() {
                 let n = e.file_name().to_string_lossy().to_string();
                 if n.starts_with(&format!("{id}-")) {
@@ -525,9 +533,9 @@ impl Ctx {
         let mut code = 0;
         if !unknown.is_empty() {
             code = 1;
-            std::fs::create_dir_all("/verif/replays").ok();
+            std::fs::create_dir_all(format!("{}/replays", root())).ok();
             for (i, cv) in unknown.iter().enumerate() {
-                let path = format!("/verif/replays/{}-{}.json", self.id, sanitize(&cv.1.class));
+                let path = format!("{}/replays/{}-{}.json", root(), self.id, sanitize(&cv.1.class));
                 let doc = json!({
                     "property": self.id,
                     "class": cv.1.class,
@@ -547,7 +555,7 @@ impl Ctx {
             ev.caps_hit.push(format!("machinery errors: {}", merrs.len()));
             code = 2;
         }
-        if let Err(e) = ev.write("/verif/evidence") {
+        if let Err(e) = ev.write(&format!("{}/evidence", root())) {
             eprintln!("MACHINERY: cannot write evidence: {e}");
             if code == 0 {
                 code = 2;
